@@ -25,6 +25,8 @@ impl<'a, T> MMWriter<'a, T> {
     where
         T: Copy,
     {
+        #[cfg(feature = "verif")]
+        crate::verif::write_log(pos, data.len(), self.slice.len());
         ptr::copy_nonoverlapping(data.as_ptr(), self.slice[pos].get(), data.len());
     }
 }
